@@ -60,6 +60,27 @@ def main():
             ck.add_traces(res['counts']['rejected_loads'] + res['counts']['cycles'])
             for mm in res['mismatches']:
                 ck.violation('%s %s build: %s %s' % (job['fam'], flavour, mm['kind'], json.dumps({k: v for k, v in mm.items() if k not in ('kind',)})[:300]), dict(mm, build=flavour))
+    # 4. cursors over trees that are mutated meanwhile (behaviours of Iter.tla, as in C15) on the sanitizer build:
+    #    a cursor holds counted references to leaves that may be emptied and unlinked under it
+    from harness.checks.c15 import icfg
+    iplan = []
+    for (nk, lf, it, num, depth, mu, mo) in ([(8, 2, 2, 500, 40, 14, 5), (6, 4, 2, 400, 30, 12, 4)] if quick else
+                                             [(8, 2, 2, 4000, 44, 16, 5), (6, 4, 2, 3000, 34, 14, 4), (16, 2, 2, 3000, 90, 18, 11)]):
+        cfg_ = icfg(nk, 2, lf, it, mu, mo, 4, spec='SSpec', invs=('OutcomeOK', 'InBounds'), view=False)
+        fn, behs, summ = tlc.simulate_behaviours('IterSim', cfg_, num, depth, seed=ck.seed + 1)
+        ck.add_tlc(summ, 'IterSim simulation keys=%d sizes=(%d,%d): %d behaviours (sanitizer build)' % (nk, lf, it, len(behs)))
+        for fam in ('OO', 'IO'):
+            for is_set in ((True, False) if fam == 'OO' else (False,)):
+                iplan.append(dict(fam=fam, impl='c', is_set=is_set, leaf=lf, internal=it, dump=fn, part=0, nparts=1 if not quick else 2))
+    for job, res, err in jobs.run_jobs('harness.workers.iter_worker', iplan, flavour='asan'):
+        ident = dict(fam=job['fam'], is_set=job['is_set'], sizes=[job['leaf'], job['internal']], build='asan')
+        if err:
+            ck.violation('iterator worker died on the sanitizer build %s: %s' % (ident, err[-1500:]), dict(ident, kind='crash', err=err[-3000:]))
+            continue
+        ck.bump('asan_iterator_behaviours', res['counts']['behaviours'])
+        ck.add_traces(res['counts']['behaviours'])
+        for mm in res['mismatches']:
+            ck.violation('%s %s sanitizer build: cursor %s after %s' % (mm['fam'], 'set' if mm['is_set'] else 'map', mm['kind'], mm['history'][-4:]), dict(mm, build='asan'))
     ck.assumptions += ['reference counts are read with sys.getrefcount on one key object per rank and one value object per rank, '
                        'with the collector disabled and no temporaries alive',
                        'memory errors inside one C statement are only visible to the sanitizer build (clang 14 ASan+UBSan), '
